@@ -41,13 +41,15 @@ def toScreamingSnake (U : UnicodeOps) (s : Str) : Str := toAsciiUpper (toSnake U
 def toKebab (U : UnicodeOps) (s : Str) : Str := replaceChar (toSnake U s) '_' ['-']
 def toScreamingKebab (U : UnicodeOps) (s : Str) : Str := toAsciiUpper (toKebab U s)
 
-/-- `rename_all_to_case` -/
+/-- `rename_all_to_case`.  `lowercase` / `UPPERCASE` are `str::to_ascii_lowercase` /
+`to_ascii_uppercase` (since the `fix:` commit e0753c7, like serde_derive's `RenameRule`; before it
+they were the Unicode mappings `U.lowerStr` / `U.upperStr`). -/
 def renameAllToCase (U : UnicodeOps) (original : Str) (rule : Option Str) : Outcome Str :=
   match rule with
   | none => .ok original
   | some v =>
-    if v = s%"lowercase" then .ok (U.lowerStr original)
-    else if v = s%"UPPERCASE" then .ok (U.upperStr original)
+    if v = s%"lowercase" then .ok (toAsciiLower original)
+    else if v = s%"UPPERCASE" then .ok (toAsciiUpper original)
     else if v = s%"PascalCase" then .ok (toPascal original)
     else if v = s%"camelCase" then .ok (toCamel original)
     else if v = s%"snake_case" then .ok (toSnake U original)
